@@ -112,9 +112,13 @@ func (m *reflectMock) call(slot, tok int) {
 func (m *reflectMock) CallM(tok int) { m.call(0, tok) }
 func (m *reflectMock) CallN(tok int) { m.call(1, tok) }
 
-func (m *reflectMock) decode(slot int) []int {
+func (m *reflectMock) decode(slot int) Snap {
 	rm := m.slot(slot)
 	recs := m.pv.Method(rm.callsIdx).Call(nil)[0]
+	return Snap{Tokens: m.decodeRecs(slot, recs), Again: func() []int { return m.decodeRecs(slot, recs) }}
+}
+
+func (m *reflectMock) decodeRecs(slot int, recs reflect.Value) []int {
 	out := make([]int, recs.Len())
 	for i := range out {
 		r := recs.Index(i)
@@ -143,10 +147,10 @@ func (m *reflectMock) decode(slot int) []int {
 	return out
 }
 
-func (m *reflectMock) MCalls() []int { return m.decode(0) }
-func (m *reflectMock) NCalls() []int {
+func (m *reflectMock) MCalls() Snap { return m.decode(0) }
+func (m *reflectMock) NCalls() Snap {
 	if len(m.t.ms) < 2 {
-		return nil
+		return Snap{}
 	}
 	return m.decode(1)
 }
